@@ -25,7 +25,12 @@ RULE = ("each run draws a wrapped probe element (fill/compute with reset, fill/r
         "consumed) inserted at drawn positions (swept in the thorough tier) and a final request(); "
         "every call is executed under a line-count watchdog; non-trivial = at least one complete "
         "block and, for push histories, at least one request() off a block boundary or a fill "
-        "after a complete block; distinct = distinct abstracted event-kind sequences")
+        "after a complete block; distinct = distinct abstracted event-kind sequences"
+        " Since the seeded rounds also: wrapped elements that signal LenaStopFill themselves,"
+        " elements with both interfaces, run elements with a reset method (asked for or not) and"
+        " run elements that yield nothing for some blocks, bare None values in the flow, Reverse"
+        " as post-element of FillRequestSeq, a stopping fill/request sibling in the Split, the"
+        " same object run twice, and a flow of 1100 values between two requests.")
 REAL = ["lena.core.FillRequest (fill, request, run, reset)", "lena.core.FillRequestSeq",
         "lena.core.Split (as the driver of a fill/request branch)", "lena.core.FillSeq"]
 STUB = ["probe elements (record fill / compute / request / reset / run, results name the values "
